@@ -206,7 +206,15 @@ ocp.set_der(v, a)
                 [tau,B] = eval_on_knots(self.xi,dmax-i,subsamples=refine-1)
                 self.B[refine][self.N+d] = B
                 self.tau[refine] = tau
-        self.time[refine] = self.time_grid(self.t0, self.T, self.N*refine)
+        # Refined time grid: every control interval split in `refine` equal parts
+        # (time_grid(t0, T, N*refine) is only a refinement of the control grid for uniform grids)
+        if refine==1:
+            self.time[refine] = self.control_grid
+        else:
+            cg = ca.vec(self.control_grid)
+            parts = [cg[k]+(cg[k+1]-cg[k])*ca.DM(range(refine))/refine for k in range(self.N)]+[cg[-1]]
+            time = ca.vcat(parts)
+            self.time[refine] = time.T if self.control_grid.is_row() and not self.control_grid.is_scalar() else time
 
         # Evaluate spline on the control grid
         for L,chains in self.groups.items():
